@@ -567,7 +567,7 @@ func init() {
 			for i := 0; i < n && len(c.Res.Violations) == 0; i++ {
 				runC18Program(c, c.Rng, 40+c.Rng.Intn(80))
 			}
-			if c.Index%16 == 5 && len(c.Res.Violations) == 0 {
+			if c.Index%17 == 5 && len(c.Res.Violations) == 0 {
 				runBatchAtomicity(c, c.Rng)
 			}
 			c.Res.Digest = fw.DigestOf("c18", c.Index)
